@@ -31,7 +31,9 @@ def obligations(tier):
     obs = []
     for m in MEMBERS:
         short = m.replace("suit-", "")
-        obs.append(Ob(f"{short}_severed_present", "E1", "h_member", {"member": m, "state": "present"}, 900, "5x5 algorithms, seq uint64, member index symbolic", weight=100))
+        # split on the wrapper algorithm (quick: SHA-256 and SHAKE128 - the two digest lengths; thorough: all five)
+        for w in ((0, 1) if tier == "quick" else range(len(HASHES))):
+            obs.append(Ob(f"{short}_severed_present_w{w}", "E1", "h_member", {"member": m, "state": "present", "fix": {"walg": w}}, 900, f"wrapper algorithm {HASHES[w]} x 5 member algorithms, seq uint64, member index symbolic", weight=100))
         obs.append(Ob(f"{short}_severed_missing", "E1", "h_member", {"member": m, "state": "missing"}, 900, "digest in the manifest, member absent from the envelope: supplied digest kept, wrapper digest correct", weight=60))
         if m != "suit-text":
             obs.append(Ob(f"{short}_inline", "E1", "h_member", {"member": m, "state": "inline"}, 900, "sequence inline in the manifest: only the wrapper digest", weight=40))
@@ -225,7 +227,11 @@ def _harness(build):
     return harness
 
 
-def h_member(member, state, exclude=()):
+def h_member(member, state, fix=None, exclude=()):
+    from vlib import chx
+
+    chx.FIXED.clear()
+    chx.FIXED.update(fix or {})
     return _harness(lambda L: build_member(L, member, state))
 
 
